@@ -266,6 +266,9 @@ func (dsp *DataStreamProcessor) AnalyzeData(records []*DataRecord) {
 		N := float64(len(rec.data) - rec.presamples)
 		rec.pulseAverage = sum/N - ptm
 		meanSquare := sum2/N - 2*ptm*(sum/N) + ptm*ptm
+		if meanSquare < 0 { // only by rounding, when the pulse is nearly constant: the exact value is >= 0
+			meanSquare = 0
+		}
 		rec.pulseRMS = math.Sqrt(meanSquare)
 		if dsp.HasProjectors() {
 			rows, cols := dsp.projectors.Dims()
